@@ -760,10 +760,23 @@ impl Gen<'_> {
                 } else {
                     out.push(declare(var(&xs), list(items)));
                     let j = self.t.pick(n) as i64;
-                    let mut body = vec![
-                        assign(index(var(&xs), int(j)), bin(Op::Mul, var(&e), int(10))),
-                        op_assign(var(&acc), Op::Sum, var(&e)),
-                    ];
+                    let mut body =
+                        if self.t.chance(1, 2) {
+                            // The write happens inside a called function:
+                            // the loop body itself contains no assignment.
+                            let poke = self.fresh("poke");
+                            out.push(fn_decl(&poke, vec![var("pi"), var("pv")], false, vec![assign(index(var(&xs), var("pi")), var("pv"))]));
+                            self.declare(&poke, Ty::Opaque, false);
+                            vec![
+                                expr_stmt(call(var(&poke), vec![int(j), bin(Op::Mul, var(&e), int(10))])),
+                                print(var(&e)),
+                            ]
+                        } else {
+                            vec![
+                                assign(index(var(&xs), int(j)), bin(Op::Mul, var(&e), int(10))),
+                                op_assign(var(&acc), Op::Sum, var(&e)),
+                            ]
+                        };
                     if self.t.chance(1, 3) {
                         body.push(assign(var(&xs), list(vec![int(0)])));
                     }
@@ -772,6 +785,41 @@ impl Gen<'_> {
                 self.declare(&xs, Ty::Opaque, false);
                 out.push(print(var(&acc)));
                 out.push(print(var(&xs)));
+            },
+            6 if self.t.chance(1, 2) => {
+                // A closure created before a later declaration in the same
+                // scope: it sees the outer variable first, the inner one once
+                // it has been declared.
+                let outer: Vec<VarInfo> = self.vars_of(&|t| matches!(t, Ty::Int | Ty::Str));
+                if outer.is_empty() {
+                    out.push(print(string("nocapture")));
+                    return;
+                }
+                let v = outer[self.t.pick(outer.len())].clone();
+                let g = self.fresh("g");
+                let init = self.expr(&v.ty.clone(), d - 1);
+                let delta = self.expr(&v.ty.clone(), 0);
+                let mut inner = vec![];
+                if self.t.chance(1, 2) {
+                    inner.push(print(var(&v.name)));
+                }
+                inner.push(declare(var(&g), func(vec![], false, vec![ret(var(&v.name))])));
+                inner.push(print(call(var(&g), vec![])));
+                inner.push(declare(var(&v.name), init));
+                inner.push(print(call(var(&g), vec![])));
+                inner.push(op_assign(var(&v.name), Op::Sum, delta));
+                inner.push(print(call(var(&g), vec![])));
+                match self.t.pick(3) {
+                    0 => out.push(block(inner)),
+                    1 => out.push(if_(boolean(true), inner, None)),
+                    _ => {
+                        let f = self.fresh("f");
+                        out.push(fn_decl(&f, vec![], false, inner));
+                        self.declare(&f, Ty::Opaque, false);
+                        out.push(expr_stmt(call(var(&f), vec![])));
+                    },
+                }
+                out.push(print(var(&v.name)));
             },
             6 => {
                 // Recursion with fuel.
